@@ -82,6 +82,7 @@ impl<M: Meta> TL<'_, M> {
             let src = self.scratch.join(format!("src_{}_{kind}_{pi}", self.tag));
             if !p[1].is_null() {
                 std::fs::write(&src, bytes_of(&p[1][1])).unwrap();
+                crate::util::age_source(&src);
                 std::fs::set_permissions(&src, std::fs::Permissions::from_mode(u32::try_from(p[1][0].as_u64().unwrap()).unwrap())).unwrap();
             }
             progs.insert(string_of(&p[0]), src);
